@@ -88,6 +88,297 @@ def obs_brief(r):
     return {k: o[k] for k in ("t", "c", "msg", "rfc3339", "fields", "v", "d", "kind") if k in o}
 
 
+# ----------------------------------------------------------------------------
+# generator (MC_DateGen)
+
+def _cps(t):
+    return evalkit.cps(t)
+
+
+def _seq(items):
+    return "<<" + ", ".join(items) + ">>"
+
+
+def _set(items):
+    return "{" + ", ".join(items) + "}"
+
+
+def gen(tag, mode, seed, k=1, forms_per=1, years=(2000,), days=((1, 1),), times=((0, 0, 0, ""),), offsets=((0, 0),),
+        writers=("iso",), durs=("1 s",), anchors=("2000-01-01",), convoffs=("+00:00",), zones=("UTC",),
+        workers=4, timeout=1500, coverage=False):
+    """Runs MC_DateGen; returns (cases [{q: text, mut: name}], TlcResult)."""
+    mod = "Gen_%s" % tag
+    with open(os.path.join(vlib.SPEC, mod + ".tla"), "w") as f:
+        f.write("---- MODULE %s ----\nEXTENDS MC_DateGen\n" % mod)
+        f.write("G_Years == %s\n" % _set(str(y) for y in years))
+        f.write("G_Days == %s\n" % _set("<<%d, %d>>" % d for d in days))
+        f.write("G_Times == %s\n" % _set("<<%d, %d, %d, %s>>" % (t[0], t[1], t[2], _seq(c for c in t[3])) for t in times))
+        f.write("G_Offsets == %s\n" % _seq("<<%d, %d>>" % o for o in offsets))
+        f.write("G_Writers == %s\n" % _set('"%s"' % w for w in writers))
+        f.write("G_DurTexts == %s\n" % _seq(_cps(t) for t in durs))
+        f.write("G_AnchorLits == %s\n" % _seq(_cps(t) for t in anchors))
+        f.write("G_ConvOffsets == %s\n" % _seq(_cps(t) for t in convoffs))
+        f.write("G_Zones == %s\n" % _seq(_cps(t) for t in zones))
+        f.write("====\n")
+    cfg = os.path.join(vlib.SPEC, mod + ".cfg")
+    with open(cfg, "w") as f:
+        f.write("SPECIFICATION Spec\nINVARIANT Emit\nINVARIANT RoundTrip\nCHECK_DEADLOCK FALSE\nCONSTANTS\n")
+        f.write('  Mode = "%s"\n  Seed = %d\n  K = %d\n  FormsPer = %d\n' % (mode, seed % 1000, k, forms_per))
+        for c in ("Years", "Days", "Times", "Offsets", "Writers", "DurTexts", "AnchorLits", "ConvOffsets", "Zones"):
+            f.write("  %s <- G_%s\n" % (c, c))
+    try:
+        r = vlib.tlc(mod, cfg, workers=workers, timeout=timeout, tag="gen" + tag, xmx="8g", coverage=coverage)
+    finally:
+        for ext in (".tla", ".cfg"):
+            try:
+                os.unlink(os.path.join(vlib.SPEC, mod + ext))
+            except OSError:
+                pass
+    vlib.require_ok(r, "MC_DateGen " + tag)
+    cases = [{"q": "".join(chr(c) for c in o["q"]), "mut": o["mut"]} for o in vlib.tagged_json(r, "CASE")]
+    return cases, r
+
+
+# durations (whole nanoseconds) of the property's quantifier: 1 ns ... the documented maximum
+def duration_ns(secs):
+    year = secs["year"] * 10**9
+    assert year.denominator == 1
+    return [("1ns", 1), ("999ns", 999), ("1us", 1000), ("1us+1ns", 1001), ("0.5ms", 500000), ("1ms-1ns", 999999),
+            ("1ms", 10**6), ("1.0005s", 1000500000), ("1s", 10**9), ("1s+1ns", 10**9 + 1), ("1min", 60 * 10**9),
+            ("1day", 86400 * 10**9), ("1week", 7 * 86400 * 10**9), ("400years", 400 * int(year)),
+            ("9000years", 9000 * 365 * 86400 * 10**9), ("190000years", 6 * 10**12 * 10**9),
+            ("max", 9223372036854775 * 10**9), ("max+1s", 9223372036854776 * 10**9)]
+
+
+TIME_SPELLINGS = ["ns", "nanosecond", "us", "\u00b5s", "microsecond", "ms", "millisecond", "s", "second", "sec", "minute",
+                  "min", "hour", "hr", "day", "week", "year"]
+
+
+def spell(n_ns, unit, secs):
+    """the duration of n_ns nanoseconds written in `unit`: a decimal when the unit is a power of ten nanoseconds,
+    else an integer or a fraction p|q"""
+    from fractions import Fraction
+    u = secs[unit] * 10**9          # nanoseconds per unit
+    assert u.denominator == 1
+    u = int(u)
+    ds = str(u)
+    if ds[0] == "1" and set(ds[1:]) <= {"0"}:
+        k = len(ds) - 1
+        if k == 0:
+            return "%d %s" % (n_ns, unit)
+        digits = str(n_ns).zfill(k + 1)
+        ip, fp = digits[:-k], digits[-k:].rstrip("0")
+        return "%s%s %s" % (ip, "." + fp if fp else "", unit)
+    fr = Fraction(n_ns, u)
+    if fr.denominator == 1:
+        return "%d %s" % (fr.numerator, unit)
+    return "%d|%d %s" % (fr.numerator, fr.denominator, unit)
+
+
+def duration_texts(secs, rng, per_duration=None):
+    """every duration x sign x unit spelling (per_duration: how many spellings per duration and sign, None = all)"""
+    out = []
+    for _name, n in duration_ns(secs):
+        for sign in ("", "-"):
+            units = TIME_SPELLINGS[:]
+            if per_duration is not None:
+                rng.shuffle(units)
+                units = units[:per_duration]
+            for u in units:
+                out.append(sign + spell(n, u, secs))
+    return out
+
+
+# ----------------------------------------------------------------------------
+# the check
+
+YEARS = [1, 4, 100, 400, 1582, 1969, 1970, 2000, 2016, 2100, 9999]
+DAYS = [(1, 1), (2, 28), (2, 29), (3, 1), (12, 31)]
+TIMES = [(0, 0, 0, ""), (12, 0, 0, ""), (23, 59, 59, ""), (23, 59, 59, "999999999"), (1, 2, 3, "000000001"), (12, 30, 15, "5")]
+ZONES = ["UTC", "US/Pacific", "Europe/London", "Asia/Kolkata", "Pacific/Apia"]
+# kind 0: none, 1: fixed (seconds), 2: named zone (index into ZONES)
+OFFSETS = [(0, 0), (1, 0), (1, -14400), (1, 19800), (1, 50400), (2, 2), (2, 4)]
+WRITERS = ["isoT", "iso", "isodate", "ord", "mdy12", "mdy24", "mdy", "ctime", "ymd12", "ymd24"]
+CONV_OFFSETS = ["+00:00", "-04:00", "+05:30", "+14:00", "+23:59", "-23:59", "+24:00", "-24:00", "+99:00", "-00:00", "-99:59"]
+ANCHORS = ["0001-01-01 00:00:00", "1970-01-01T00:00:00 +00:00", "2000-02-29 23:59:59.999999999 -04:00",
+           "December 31, 9999 11:59:59.999999999 pm +14:00", "2016 dec 31 23:59:59 +05:30", "Fri Oct 15 00:00:00 1582"]
+# regression seeds (DESIGN.md section 6: F7, F8, F9) and forms the generator does not write; each is judged by the specification
+SEEDS = ["#2000-01-01 00:00:00.1234567890#", "#2000-01-01# -> +99:00", "(#2000-01-01# + 0.0005 s) - #2000-01-01#",
+         "1 s + #2000-01-01#", "#2000-01-01# + 1 m", "#2000-01-01# + 1", "#2000-01-01# + #2000-01-01#",
+         "#2000-01-01# -> UTC", "#2000-07-01 12:00 Europe/London# -> \"Asia/Kolkata\"", "#jan 1, 1 bc#", "#March 15, 44 BC#",
+         "#-0043-03-15#", "#0000-02-29#", "#2000-01-01 00:00:00.000000001# - #1999-12-31 23:59:59.999999999#",
+         "#2000-03-01# - #2000-02-28#", "#1900-03-01# - #1900-02-28#", "#2100-03-01# - #2100-02-28#",
+         "#2000-01-01 00:00 +0090#", "#2000-01-01T00:00:00+05:30#", "#2000-01-01# -> +05:60"]
+
+GEN_ACTIONS = {"grid": ["PickDate", "PickTime", "PickOffset", "PickWriter", "PickForm"],
+               "bad": ["PickDate", "PickTime", "PickOffset", "PickMutation", "BadForm"],
+               "dur": ["DurForm"]}
+
+
+def vacuity_gate(r, mode):
+    never = [a for a in GEN_ACTIONS[mode] if r.coverage.get(a, (0, 0))[1] == 0]
+    if never:
+        raise vlib.ToolError("vacuity gate: generator actions never taken in mode %s: %s" % (mode, never))
+
+
+def selftests(run):
+    r = vlib.tlc("MC_DateTime", "MC_DateTime", workers=1, timeout=300, tag="c14dt")
+    vlib.require_ok(r, "MC_DateTime")
+    if '<<"DATETIME_SELFTEST", TRUE, TRUE, TRUE, TRUE, TRUE, TRUE>>' not in r.stdout:
+        log(r.stdout[-2000:])
+        raise vlib.ToolError("DateTime self-test did not report TRUE x 6")
+    run.note("datetime_selftest", "calendar laws on 19 years, anchor days, instants, literal readings: all TRUE")
+    r = vlib.tlc("MC_BigNum", "MC_BigNum", workers=1, timeout=600, tag="c14bn")
+    vlib.require_ok(r, "MC_BigNum")
+    if '<<"BIGNUM_SELFTEST", TRUE, TRUE, TRUE>>' not in r.stdout:
+        raise vlib.ToolError("BigNum self-test did not report TRUE/TRUE/TRUE")
+    run.note("bignum_selftest", "BigNum.tla agrees with TLC native integers")
+
+
+SPEC_ALLOWS = ("the instant / duration DateTime.tla determines for the query (proleptic Gregorian calendar, exact rational "
+               "seconds), an error where a literal matches no documented pattern or denotes nothing or the offset is 24 h "
+               "or more; an error is also admissible near the edge of the supported range")
+
+
+_rejects = []      # every rejected line of this run (written to work/c14-rejects.ndjson for triage; not an output of the check)
+
+
+def decide(run, cases, leg, units, shards, min_per_shard=150):
+    """cases: [{q, mut}] -> runs, judges, reports.  Returns per-tag counts."""
+    t0 = time.time()
+    res = evalkit.run_eval([{"qs": c["q"]} for c in cases], ctx="bundled", timeout_ms=5000, shards=shards, tag="c14" + leg)
+    t1 = time.time()
+    events = [event_of(r) for r in res]
+    verdicts, st = judge(events, units, shards, "c14j" + leg, min_per_shard=min_per_shard)
+    run.cov["states"] += st["distinct"]
+    run.cov["transitions"] += st["generated"]
+    run.traces(len(events))
+    counts = {}
+    nast = 0
+    for i, c in enumerate(cases):
+        run.count()
+        v = verdicts.get(i, set())
+        for t in v:
+            counts[t] = counts.get(t, 0) + 1
+        if "ASTDIFF" in v:
+            nast += 1
+            if nast <= 3:
+                run.drift_note("Grammar", "the code's AST differs from the specification's parse of %r" % c["q"])
+        if "SILENT" in v or "UNSUPPORTED" in v:
+            continue
+        run.nontrivial(c["q"])
+        if "REJECT" in v or "CRASH" in v:
+            ob = obs_brief(res[i])
+            _rejects.append({"leg": leg, "q": c["q"], "mut": c.get("mut", "none"), "verdict": sorted(v), "obs": ob})
+            run.violation({"engine": "date", "leg": leg, "q": c["q"], "mut": c.get("mut", "none"),
+                           "obs_kind": "crash" if "crash" in res[i] else res[i]["obs"].get("t"),
+                           "verdict": "CRASH" if "CRASH" in v else "REJECT"},
+                          SPEC_ALLOWS, ob, "date")
+    log("[C14] leg %s: %d queries, eval %.1fs, judge %.1fs, verdicts %s" % (leg, len(cases), t1 - t0, time.time() - t1, counts))
+    return counts
+
+
+def run(tier, seed):
+    run = vlib.Run(PROP, tier, seed, "model_checking")
+    thorough = tier == "thorough"
+    run.cov["rule"] = ("TLC (MC_DateGen) enumerates boundary instants (11 years x Jan 1 / Feb 28 / Feb 29 / Mar 1 / Dec 31 x 6 times of "
+                       "day incl. 23:59:59.999999999) x offsets (none, +00:00, -04:00, +05:30, +14:00, two named zones) x every "
+                       "documented literal pattern (10 writers) x query forms (literal alone, (d+t)-d, (d-t)+t, d+t, d-t, d1-d2, "
+                       "-> +hh:mm, -> \"Zone\"), durations 1 ns .. i64::MAX/1000 s x sign x 17 unit spellings, and literals with one "
+                       "field out of range; the quick tier keeps the literals whose hash falls on one residue (shifted by the seed). "
+                       "non-trivial = distinct query text whose reply the specification determines (not silent).")
+    run.assumptions += ["harness trusted for: string <-> code points, num-bigint <-> base-4096 limbs; the driver extracts the digits of the "
+                        "reply's RFC 3339 string (no calendar arithmetic outside the specification)",
+                        "the values of the time units (s, ms, ..., year) are looked up in the code's own database and given to the judge: "
+                        "the unit database is not under test here",
+                        "the tz database is not specified: for named zones the UTC offset is taken from the reply (RFC 3339 rounds it to "
+                        "minutes, so a reply in a named zone fixes its instant to +-30 s)",
+                        "results beyond +-200 000 years or durations beyond i64::MAX/1000 s: an error or the exact result is accepted"]
+    vlib.build_harness()
+    selftests(run)
+    units, secs = unit_env()
+    rng = random.Random(seed)
+    shards = 12 if thorough else 8
+
+    # G1: grid of boundary instants x offsets x writers x rotating forms
+    durs_rot = duration_texts(secs, rng, per_duration=None if thorough else 4)
+    years = YEARS + ([0, -43] if thorough else [])
+    grid, r1 = gen("c14grid", "grid", seed, k=1 if thorough else 7, forms_per=3 if thorough else 1, years=years, days=DAYS, times=TIMES,
+                   offsets=OFFSETS, writers=WRITERS, durs=durs_rot, anchors=ANCHORS, convoffs=CONV_OFFSETS, zones=ZONES,
+                   workers=8 if thorough else 4, timeout=2400, coverage=True)
+    vacuity_gate(r1, "grid")
+    run.add_tlc(r1, "MC_DateGen grid")
+    c1 = decide(run, grid, "grid", units, shards)
+    run.sample({"leg": "grid", "q": grid[len(grid) // 2]["q"]})
+    run.sample({"leg": "grid", "q": grid[len(grid) // 5]["q"]})
+
+    # G2: every duration text x anchors x arithmetic forms
+    durs_all = duration_texts(secs, rng, per_duration=None if thorough else 3)
+    anchors = ANCHORS if thorough else [ANCHORS[i] for i in sorted(rng.sample(range(len(ANCHORS)), 3))]
+    dur, r2 = gen("c14dur", "dur", seed, durs=durs_all, anchors=anchors, workers=2, timeout=1200, coverage=True)
+    vacuity_gate(r2, "dur")
+    run.add_tlc(r2, "MC_DateGen dur")
+    c2 = decide(run, dur, "dur", units, shards)
+    run.sample({"leg": "dur", "q": dur[len(dur) // 2]["q"]})
+
+    # G3: literals with one field out of range
+    bad, r3 = gen("c14bad", "bad", seed, years=[1900, 2000, 9999] if thorough else [rng.choice([1900, 2100, 1969]), 2000],
+                  days=[(1, 31), (12, 1)] if thorough else [(1, 31)],
+                  times=[(23, 59, 59, "5"), (0, 0, 0, "")] if thorough else [(23, 59, 59, "5")],
+                  offsets=[(0, 0), (1, 19800)], writers=WRITERS, workers=4, timeout=1200, coverage=True)
+    vacuity_gate(r3, "bad")
+    run.add_tlc(r3, "MC_DateGen bad")
+    c3 = decide(run, bad, "bad", units, shards)
+    run.sample({"leg": "bad", "q": bad[len(bad) // 2]["q"], "mutation": bad[len(bad) // 2]["mut"]})
+
+    # regression seeds
+    c4 = decide(run, [{"q": q, "mut": "none"} for q in SEEDS], "seeds", units, 1, min_per_shard=1000)
+    run.sample({"leg": "seeds", "q": SEEDS[2]})
+    run.note("verdict_counts", {"grid": c1, "dur": c2, "bad": c3, "seeds": c4})
+    for leg, c in (("grid", c1), ("dur", c2), ("bad", c3)):
+        n = {"grid": len(grid), "dur": len(dur), "bad": len(bad)}[leg]
+        if c.get("SILENT", 0) + c.get("UNSUPPORTED", 0) > n // 2:
+            raise vlib.ToolError("leg %s: the specification was silent on more than half of the generated queries" % leg)
+
+    # the binding is not vacuous: corrupted observations must be rejected
+    res = evalkit.run_eval([{"qs": "(#2000-02-29 23:59:59 -04:00# + 86400 s) - #2000-02-29 23:59:59 -04:00#"},
+                            {"qs": "#2000-02-28 23:59:59 +05:30# + 1 day"}, {"qs": "#2000-02-28# -> -04:00"}], ctx="bundled", tag="c14self")
+    evs = [event_of(r) for r in res]
+    ok = all(e["obs"].get("t") in ("num", "date") for e in evs)
+    if ok:
+        good, _ = judge([json.loads(json.dumps(e)) for e in evs], units, 1, "c14selfg")
+        ok = not any(good.get(i, set()) & {"REJECT", "CRASH", "SILENT"} for i in range(3))
+    if ok:
+        evs[0]["obs"]["v"]["n"]["mag"][0] += 1
+        evs[1]["obs"]["rfc"][2] += 1
+        evs[1]["obs"]["fields"][2] += 1
+        evs[2]["obs"]["rfc"][3] = (evs[2]["obs"]["rfc"][3] + 1) % 24
+        evs[2]["obs"]["fields"][3] = evs[2]["obs"]["rfc"][3]
+        verdicts, _ = judge(evs, units, 1, "c14selfj")
+        if not all("REJECT" in verdicts.get(i, set()) for i in range(3)):
+            raise vlib.ToolError("self-check: a corrupted observation was not rejected by Trace_Date")
+        run.note("selfcheck_corrupted_observation_rejected", True)
+    else:
+        # the unchanged observations are themselves not accepted (the code is broken there): the violations above say so
+        run.note("selfcheck_corrupted_observation_rejected", "skipped: the uncorrupted replies are already rejected")
+        if not run.violations and not run.known_hits:
+            raise vlib.ToolError("self-check: the uncorrupted self-check replies were not accepted, yet no violation was reported")
+    vlib.write_ndjson(os.path.join(vlib.WORK, "c14-rejects.ndjson"), _rejects)
+    return run.finish()
+
+
+def replay(path, seed):
+    body = json.load(open(path))
+    q = body["case"]["q"]
+    vlib.build_harness()
+    units, _ = unit_env()
+    res = evalkit.run_eval([{"qs": q}], ctx="bundled", tag="c14r")
+    verdicts, _ = judge([event_of(res[0])], units, 1, "c14rj")
+    v = verdicts.get(0, {"ACCEPT"})
+    log("query: %r\nobserved: %s\nverdict: %s" % (q, json.dumps(obs_brief(res[0]))[:600], sorted(v)))
+    return 1 if v & {"REJECT", "CRASH"} else 0
+
+
 def probe(texts):
     """development helper: run and judge a few texts, print everything"""
     vlib.build_harness()
